@@ -14,6 +14,7 @@ PROP = {
     "theorems": [
         "Multi.C18.message_typemap",
         "Multi.C18.pack_unpack_kth",
+        "Multi.C18.reachable_pack_unpack_kth",
         "Multi.C18.types_committed_and_freed_once",
         "Multi.C18.ofElements_spec",
         "Multi.Mpi.build_spec",
